@@ -3311,6 +3311,8 @@ bn_mod_inv1(bn_p bn, bn_p m, bn_mod_rd_data_p mod_rd_data __unused) {
 		BN_RET_ON_ERR(bn_assign(&v3, &t3));
 		u1Sign = -u1Sign;
 	}
+	if (0 == bn_is_one(&u3)) /* u3 = gcd(bn, m) != 1: no inverse. */
+		return (EINVAL);
 
 	/* Negate result if sign is negative. */
 	if (u1Sign < 0) {
@@ -3545,6 +3547,8 @@ bn_mod_reduce(bn_p bn, bn_p m, bn_mod_rd_data_p mod_rd_data) {
 	BN_POINTER_CHK_EINVAL(m);
 	if (bn_cmp(bn, m) < 0)
 		return (0);
+	if (0 != bn_is_zero(m)) /* m - 1 wraps to 2^capacity - 1. */
+		return (EINVAL);
 	BN_RET_ON_ERR(bn_assign_init(&tmp, m));
 	bn_sub_digit(&tmp, 1, NULL);
 	BN_RET_ON_ERR(bn_mod(bn, &tmp, mod_rd_data));
